@@ -223,7 +223,7 @@ UNIT = dict(
         dict(name="builder_refuses_commitments_that_do_not_match", obligation="SequencerBlockBuilder::try_build::ensures#mismatching-commitment=>Err", bounded="blocks with 1 data submission and deposits for 1 rollup"),
         dict(name="canary_block_with_two_rollups_reachable", expect="fail"),
     ],
-    harness_timeout=1200,
+    harness_timeout=1200, jobs=4,
     assumptions=["Vec, IndexMap, HashMap (arbitrary iteration order over 2 entries), Box, Arc are fixed-capacity stand-ins; merkle::Tree remembers its leaves and digests them deterministically (that a root binds its leaves is C08 under H-inj); protobuf encoding of RollupData is an injective tagging of one content byte",
                  "SequencerBlockBuilder / ExpandedBlockData / SequencerBlock / RollupTransactions / GeneratedCommitments are stand-in structs with the field names of the real ones (the function bodies destructure them exhaustively); roots are 4 bytes",
                  "deposit lists handed to the builder are non-empty (the block's deposit cache only holds rollups with at least one deposit)",
